@@ -134,8 +134,27 @@ class HarnessGen:
         o.append("""
 template <class T> struct Maker<PhQ::PlanarVector<T>> { static PhQ::PlanarVector<T> make(Ctx& c) { return PhQ::PlanarVector<T>{vrt::make<std::array<T, 2>>(c)}; } };
 template <class T> struct Maker<PhQ::Vector<T>> { static PhQ::Vector<T> make(Ctx& c) { if (c.below(16) == 0) return PhQ::Vector<T>::Zero(); return PhQ::Vector<T>{vrt::make<std::array<T, 3>>(c)}; } };
-template <class T> struct Maker<PhQ::SymmetricDyad<T>> { static PhQ::SymmetricDyad<T> make(Ctx& c) { if (c.below(16) == 0) return PhQ::SymmetricDyad<T>::Zero(); return PhQ::SymmetricDyad<T>{vrt::make<std::array<T, 6>>(c)}; } };
-template <class T> struct Maker<PhQ::Dyad<T>> { static PhQ::Dyad<T> make(Ctx& c) { if (c.below(16) == 0) return PhQ::Dyad<T>::Zero(); return PhQ::Dyad<T>{vrt::make<std::array<T, 9>>(c)}; } };
+// tensors: besides arbitrary components, exactly singular ones that are not uniform (zero row, two equal rows,
+// rank one, a zero on the diagonal of a diagonal tensor) and the identity
+template <class T> struct Maker<PhQ::SymmetricDyad<T>> { static PhQ::SymmetricDyad<T> make(Ctx& c) {
+  const std::uint64_t k = c.below(16);
+  if (k == 0) return PhQ::SymmetricDyad<T>::Zero();
+  const T a = modest_value<T>(c), b = modest_value<T>(c), d = modest_value<T>(c);
+  if (k == 1) return PhQ::SymmetricDyad<T>{a * a, a * b, a * d, b * b, b * d, d * d};                 // rank one
+  if (k == 2) return PhQ::SymmetricDyad<T>{a, 0, 0, b, 0, 0};                                        // diagonal, one zero
+  if (k == 3) return PhQ::SymmetricDyad<T>{1, 0, 0, 1, 0, 1};                                        // identity
+  if (k == 4) return PhQ::SymmetricDyad<T>{a, a, b, a, b, d};                                        // rows 0 and 1 equal
+  return PhQ::SymmetricDyad<T>{vrt::make<std::array<T, 6>>(c)}; } };
+template <class T> struct Maker<PhQ::Dyad<T>> { static PhQ::Dyad<T> make(Ctx& c) {
+  const std::uint64_t k = c.below(16);
+  if (k == 0) return PhQ::Dyad<T>::Zero();
+  const T a = modest_value<T>(c), b = modest_value<T>(c), d = modest_value<T>(c);
+  if (k == 1) return PhQ::Dyad<T>{a, b, d, a, b, d, d, a, b};                                        // two equal rows
+  if (k == 2) return PhQ::Dyad<T>{a, b, d, 0, 0, 0, b, d, a};                                        // zero row
+  if (k == 3) return PhQ::Dyad<T>{a * a, a * b, a * d, b * a, b * b, b * d, d * a, d * b, d * d};      // rank one
+  if (k == 4) return PhQ::Dyad<T>{1, 0, 0, 0, 1, 0, 0, 0, 1};                                        // identity
+  if (k == 5) return PhQ::Dyad<T>{a, 0, 0, 0, 0, 0, 0, 0, d};                                        // diagonal, one zero
+  return PhQ::Dyad<T>{vrt::make<std::array<T, 9>>(c)}; } };
 template <class T> struct Maker<PhQ::Direction<T>> { static PhQ::Direction<T> make(Ctx& c) {
   PhQ::Direction<T> d{vrt::make<PhQ::Vector<T>>(c)};
   if (!all_finite(d)) d = PhQ::Direction<T>{modest_value<T>(c), modest_value<T>(c), modest_value<T>(c)};
@@ -432,6 +451,8 @@ template <class T> struct Maker<PhQ::ConstitutiveModel::CompressibleNewtonianFlu
             add("ParseEnumeration(mutated)",
                 "const std::string s = vrt::mutate(c, vrt::EnumInfo<%s>::literals[c.select(vrt::EnumInfo<%s>::nliterals)]); "
                 "auto r = [&] { vrt::Count k; return PhQ::ParseEnumeration<%s>(std::string_view(s)); }(); vrt::consume(c, r);" % (E, E, E), 2)
+            add("ParseEnumeration(short)",
+                "const std::string s = vrt::short_string(c.select(65793)); auto r = [&] { vrt::Count k; return PhQ::ParseEnumeration<%s>(std::string_view(s)); }(); vrt::consume(c, r);" % E, 2)
             add("ParseEnumeration(bytes)",
                 "const std::string s = vrt::arbitrary_bytes(c); auto r = [&] { vrt::Count k; return PhQ::ParseEnumeration<%s>(std::string_view(s)); }(); vrt::consume(c, r);" % E, 2)
             if is_unit:
@@ -458,6 +479,7 @@ template <class T> struct Maker<PhQ::ConstitutiveModel::CompressibleNewtonianFlu
         for T in NUMERIC:
             t = TSHORT[T]
             add("Base|ParseNumber<%s>(number-like)" % t, "const std::string s = vrt::number_like(c); auto r = [&] { vrt::Count k; return PhQ::ParseNumber<%s>(s); }(); vrt::consume(c, r);" % T, 2)
+            add("Base|ParseNumber<%s>(short)" % t, "const std::string s = vrt::short_string(c.select(65793)); auto r = [&] { vrt::Count k; return PhQ::ParseNumber<%s>(s); }(); vrt::consume(c, r);" % T, 2)
             add("Base|ParseNumber<%s>(bytes)" % t, "const std::string s = vrt::arbitrary_bytes(c); auto r = [&] { vrt::Count k; return PhQ::ParseNumber<%s>(s); }(); vrt::consume(c, r);" % T, 2)
             add("Base|ParseNumber<%s>(printed)" % t, "const std::string s = PhQ::Print(vrt::make<%s>(c)); auto r = [&] { vrt::Count k; return PhQ::ParseNumber<%s>(s); }(); vrt::consume(c, r);" % (T, T), 2)
             add("Base|ParseNumber<%s>(grammar)" % t, "const std::string s = vrt::kNumberGrammar[c.select(vrt::kNumberGrammarSize)]; auto r = [&] { vrt::Count k; return PhQ::ParseNumber<%s>(s); }(); vrt::consume(c, r);" % T, 2)
